@@ -53,6 +53,42 @@ let run line =
                 dead := (match t'.err with TE_success | TE_continue -> false | _ -> true);
                 let v = match ret with Some v -> string_of_jv v | None -> "-" in
                 out := Printf.sprintf "%s %s %s" (err_name t'.err) (string_of_z t'.char_offset) v :: !out)
+           | 'S' when !dead -> out := "skipped" :: !out
+           | 'S' ->
+             (* stream of concatenated documents fed in chunks: S<hex>[,cut,cut,...]; after a success the caller
+                resumes at the reported end position; after continue it feeds the next chunk *)
+             let parts = String.split_on_char ',' body in
+             let data = Array.of_list (bytes_of_hex (List.hd parts)) in
+             let n = Array.length data in
+             let cuts = List.map int_of_string (List.tl parts) @ [n] in
+             let b = Buffer.create 64 in
+             let base = ref 0 in
+             let stop = ref false in
+             let last = ref "none" in
+             List.iter (fun cut ->
+               if not !stop then begin
+                 let off = ref !base in
+                 let fin = ref false in
+                 let iters = ref 0 in
+                 while not !fin && not !stop do
+                   incr iters;
+                   let chunk = Array.to_list (Array.sub data !off (cut - !off)) in
+                   (match parse_ex strtod_bits !t chunk with
+                    | PRFuel -> Buffer.add_string b "FUEL"; stop := true
+                    | PR (t', ret) ->
+                      t := t';
+                      let e = int_of_z t'.char_offset in
+                      (match t'.err, ret with
+                       | TE_success, Some v ->
+                         Buffer.add_string b (Printf.sprintf "%s@%d;" (string_of_jv v) (!off + e));
+                         last := "success"; off := !off + e;
+                         if !off >= cut || !iters > 10000 then fin := true
+                       | TE_continue, _ -> last := "continue"; fin := true
+                       | er, _ -> last := Printf.sprintf "%s@%d" (err_name er) (!off + e); stop := true; dead := true))
+                 done;
+                 base := cut
+               end) cuts;
+             out := Printf.sprintf "docs=%s final=%s" (if Buffer.length b = 0 then "-" else Buffer.contents b) !last :: !out
            | 'R' -> t := tok_reset !t; dead := false; out := "reset" :: !out
            | 'N' -> t := t0; dead := false; out := "new" :: !out
            | 'F' -> let (s, a, v) = flags_of (int_of_string body) in t := set_flags !t s a v; out := "flags" :: !out
